@@ -166,7 +166,7 @@ def run(run):
             for m, i in zip(msgs, range(len(msgs))):
                 add({"ev": "Clean", "msg": m, "out": bits(O[i]), "raised": False, "shape_ok": tuple(O.shape) == (len(msgs), k)}, "WagnerSoftDecisionDecoder", {"k": k})
                 run.case(("wagner-clean", k, mag, tuple(m)), nontrivial=any(m))
-        for layout in ("1d", "2d", "blocks"):
+        for layout in ("1d", "2d", "blocks", "transposed view", "strided view"):
             cnt = (10 if quick else 60)
             vecs = [[rng.choice([-1, 1]) * rng.randint(1, 40) for _ in range(n)] for _ in range(cnt)]
             # quantised inputs: few magnitude levels, so the least reliable magnitude is usually shared by several positions (ties)
@@ -177,6 +177,11 @@ def run(run):
                     outs = [bits(dec(torch.tensor(v, dtype=torch.float32))) for v in vecs]
                 elif layout == "2d":
                     O = dec(torch.tensor(vecs, dtype=torch.float32))
+                    outs = [bits(O[i]) for i in range(cnt)]
+                elif layout in ("transposed view", "strided view"):      # the same matrix as a non-contiguous view
+                    from .core import noncontiguous, transposed_view
+                    T_ = torch.tensor(vecs, dtype=torch.float32)
+                    O = dec(transposed_view(T_) if layout == "transposed view" else noncontiguous(T_))
                     outs = [bits(O[i]) for i in range(cnt)]
                 else:
                     O = dec(torch.tensor(vecs, dtype=torch.float32).reshape(cnt // 2, 2 * n)).reshape(cnt, k)
